@@ -49,5 +49,46 @@ pub fn run(out: &mut Out, rng: &mut Rng, thorough: bool) {
             .unwrap_or_else(|e| e);
             out.rec("recip", &inp.family, &inp.tokens(), &res);
         }
+        // the same relations through the integrator WITH stored faces (fan decomposition per face): two generators on the axis of a
+        // ring of 300 (their common face is a 300-gon) and a void inside a shell (one cell with hundreds of faces)
+        for which in 0..2 {
+            use glam::DVec3;
+            let inp = if which == 0 {
+                let c = DVec3::splat(0.5);
+                let mut gens = vec![c - DVec3::new(0., 0., 0.05), c + DVec3::new(0., 0., 0.05)];
+                let k = 300 + rng.below(40) as usize;
+                for i in 0..k {
+                    let a = (i as f64 + 0.3) / k as f64 * std::f64::consts::TAU;
+                    gens.push(c + DVec3::new(a.cos(), a.sin(), 0.) * 0.3 * (1.0 + 1e-3 * rng.f64()));
+                }
+                gen::Input { family: "ringwf3r_unit_z".to_string(), dim: 3, periodic: false, anchor: DVec3::ZERO, width: DVec3::ONE, gens }
+            } else {
+                let mut i = gen::make(rng, "void_shell", 3, false, 200);
+                i.family = i.family.replace("void_shell", "void_shellwf");
+                i
+            };
+            let i2 = inp.clone();
+            let res = guarded(move || {
+                let inp = i2;
+                let vi = VoronoiIntegrator::build(&inp.gens, None, inp.anchor, inp.width, inp.dimensionality(), inp.periodic).with_faces();
+                let fs = vi.compute_face_integrals::<AreaCentroidIntegral>();
+                let mut s = format!("OK NF {}", fs.len());
+                for f in &fs {
+                    s.push_str(&format!(" {} {} {} {} {}", f.left(), opt_usize(f.right()), opt_v3(f.shift()), fx(f.integral().area), v3(f.integral().centroid)));
+                }
+                let v = Voronoi::from(&vi);
+                s.push_str(&format!(" NC {}", v.cells().len()));
+                for c in v.cells() {
+                    s.push_str(&format!(" {}", fx(c.volume())));
+                }
+                s.push_str(&format!(" SF {}", v.faces().len()));
+                for f in v.faces() {
+                    s.push_str(&format!(" {} {} {} {} {} {}", f.left(), opt_usize(f.right()), opt_v3(f.shift()), fx(f.area()), v3(f.normal()), v3(f.centroid())));
+                }
+                s
+            })
+            .unwrap_or_else(|e| e);
+            out.rec("recip", &inp.family, &inp.tokens(), &res);
+        }
     }
 }
